@@ -1,21 +1,70 @@
 import InfernoVerif.Gen.SelectProg
 import InfernoVerif.Props.C01Glue
+import InfernoVerif.Model.SelectQ
+import InfernoVerif.Lemmas.Select
+/-!
+# Glue: the `select` / `insert` model IS the bodies of `RecordTensor.select` / `RecordTensor.insert` in /repo's source
+
+`Gen/SelectProg.lean` is regenerated on every run by `harness/progtx_select.py` from the *whole bodies* of
+`RecordTensor.select` and `RecordTensor.insert` (`inferno/core/infrastructure.py`): the default kernel, the `_ignore`
+test, the shape / dimension tests, the scalar-time / tensor-time dispatch, the range tests (`amin` / `amax` on tensors)
+with their `ValueError`, `shift`, the snap-to-grid `where`, the on-grid test, the bracket indices (`ceil` = prev first,
+`floor` = next), `_unwind_ptr` / `_unwind_tensor_ptr`, the reads / `gather` / `tensor_split`, the kernel call with its
+argument order, the "exact overwrite" `where`s, and the writes (`self.write`, the in-place pair, `self.writerange`,
+`scatter_` / `scatter`).  `self.write` / `self.writerange` are the regenerated `RingProg.RecordTensor_write` /
+`RecordTensor_writerange` (tied to the ring machine by `Props/C01Glue.lean`, used here through `write_ok` /
+`gen_writerange`); torch primitives are the functions of `Gen/ProgPrelude.lean` and `Gen/SelectPrelude.lean`.
+
+The theorems `gen_select_scalar`, `gen_select_tensor`, `gen_insert_scalar`, `gen_insert_tensor` state that running the
+regenerated program on a live private state `g` (whole observations of `P = prod oshape` positions) and reading the result
+column by column is EQUAL to the functions of `Model/Select.lean` on the columns `colRing K g p` — `selectScalar`,
+`selectTensorAll` (hence `selectTensor`), `insertScalar`, `insertTensorAll` (hence `insertTensor`) — the functions about
+which `Props/C02.lean` proves the on-grid / off-grid laws and the scalar = tensor equivalence (at `realOps`; `colRing_wf`
+gives their well-formedness hypothesis, `realOps_ordLaws` the one extra hypothesis used here).  They hold for EVERY
+`Select.Ops` (for the tensor paths: every one whose `lt` is a linear order's, `OrdLaws`), every kernel, every offset, every
+time — so the `ValueError` branches of the range tests, the on-grid and off-grid branches, both `inplace` values, the
+one-slot `ValueError` of `writerange`, and both accepted `ndim`s of a time tensor are covered.  A flipped comparison, a
+bracket index swapped, a dropped `where`, a write to the wrong slot or in the wrong order changes the generated text and
+the corresponding theorem stops checking.
+
+What the abstraction adds / assumes (the model is per column and does not have these):
+* kernels are scalar functions applied element-wise (`Gen/SelectPrelude.lean`); `interp=None` / `extrap=None` is the
+  module-level default, a parameter (`nearest`) of the generated definitions;
+* dtype conversion is the identity (`hE`; the model does not convert, the check stores float64);
+* `Live g s`: initialised storage with `recordsz ≥ 1` slices of `P` entries, pointer in range; the observation and an
+  observation-shaped time tensor have `P` entries (`hxl`, `htl`, `htt`);
+* a time tensor has at least one element (`hne` / `hP`): torch's `amin` raises `RuntimeError` on an empty tensor whereas
+  `selectTensorAll` / `insertTensorAll` of the empty list return the empty list;
+* what the model does not have at all is proved separately: ignored storage raises `RuntimeError`
+  (`gen_select_ignored`, `gen_insert_ignored`), a misshaped observation / time tensor raises `ValueError`
+  (`gen_insert_obs_shape`, `gen_insert_time_shape`, `gen_select_tensor_ndim`); `select` returns the state it was given
+  (`gen_select_scalar_total`).
+Not proved here: that `insert` leaves a `Live` state (the theorems are per call; the model-side functions keep `Ring.WF`,
+`Lemmas/Select.lean`).
+-/
 set_option linter.unusedSimpArgs false
 set_option linter.unusedVariables false
 namespace InfernoVerif.Gen.SelectProg
 open InfernoVerif.Ring InfernoVerif.Gen InfernoVerif.Gen.Prog InfernoVerif.Gen.SelectPrelude InfernoVerif.Select
-open InfernoVerif.Gen.RingProg (unwind_eq unwind_lt pyIndex_nat write_ok gen_writerange toM lift)
+open InfernoVerif.Gen.RingProg (unwind_eq unwind_lt pyIndex_nat write_ok gen_writerange toM lift allSome_block)
 
 variable {α : Type}
 
+
+/-- the time slices of initialised storage (nothing for ignored storage) -/
 def rowsOf (g : SelT α) : List (List α) :=
   match g.data with
   | .init _ _ s => s.rows
   | _ => []
 
-def colRing (K : Ops α) (g : SelT α) (p : Nat) : Ring α :=
+/-- abstraction: column `p` of the private state — one scalar per time slot — as the ring `Model/Select.lean` works on
+(the default `K.ofInt 0` of `getD` is never used under `Live` and `p < prod s.oshape`) -/
+def colRing (K : Ops α) (g : SelT α) (p : Nat) : Ring.Ring α :=
   ⟨g.recordsz.toNat, g.pointer.toNat, (rowsOf g).map (·.getD p (K.ofInt 0))⟩
 
+/-- well-formedness of a private state with initialised storage `s` (what the constructor and every method maintain):
+the storage carries its own dtype / observation shape, has `recordsz ≥ 1` slices of `prod oshape` entries each, and the
+pointer is in `[0, recordsz)` -/
 structure Live (g : SelT α) (s : Stack α) : Prop where
   hdata : g.data = .init s.dt s.oshape s
   hn : 0 < g.recordsz
@@ -24,10 +73,13 @@ structure Live (g : SelT α) (s : Stack α) : Prop where
   hp1 : g.pointer < g.recordsz
   hrows : ∀ r ∈ s.rows, r.length = prod s.oshape
 
+/-- exception → outcome of the model: `ValueError` is the model's `valueError`; `IndexError` (an index outside `data`)
+is its `noSlot`, and so is every other class — none of them occurs on a live state (`gen_select_scalar_total`) -/
 def errOut {β : Type} : Err → Outcome β
   | .ValueError => .valueError
   | _ => .noSlot
 
+/-- result of the regenerated `select` (scalar time) → outcome of the model on column `p` -/
 def liftSelObs (p : Nat) : Except Err (SelT α × SelOut α) → Outcome α
   | .ok (_, .obs x) => match x.vals[p]? with
     | some v => .ok v
@@ -36,9 +88,11 @@ def liftSelObs (p : Nat) : Except Err (SelT α × SelOut α) → Outcome α
   | .error e => errOut e
 
 
+/-- the slices of a live state -/
 theorem rowsOf_live {g : SelT α} {s : Stack α} (h : Live g s) : rowsOf g = s.rows := by
   simp [rowsOf, h.hdata]
 
+/-- an in-range `getElem?` is `getD` -/
 theorem getD_of_lt {β : Type} (l : List β) (i : Nat) (d : β) (h : i < l.length) : l[i]? = some (l.getD i d) := by
   simp [List.getD, List.getElem?_eq_getElem h]
 
@@ -50,6 +104,7 @@ theorem rowE_unwind (s : Stack α) (ptr n : Int) (hn : 0 < n) (hp0 : 0 ≤ ptr) 
   simp only [Stack.rowE, hl, pyIndex_nat _ _ hlt]
   rw [getD_of_lt s.rows _ [] (by omega)]
 
+/-- every slice of a live state has one entry per position -/
 theorem row_len {g : SelT α} {s : Stack α} (h : Live g s) (o : Int) :
     (s.rows.getD (unwind g.pointer.toNat o g.recordsz.toNat) []).length = prod s.oshape := by
   have hlt := unwind_lt g.pointer.toNat o g.recordsz.toNat (by have := h.hn; omega)
@@ -57,6 +112,19 @@ theorem row_len {g : SelT α} {s : Stack α} (h : Live g s) (o : Int) :
   apply h.hrows
   rw [List.getD_eq_getElem?_getD, List.getElem?_eq_getElem hk]
   exact List.getElem_mem hk
+
+/-- a live state's columns are well-formed rings: the hypothesis `Ring.WF` of the theorems of `Props/C02.lean` -/
+theorem colRing_wf (K : Ops α) {g : SelT α} {s : Stack α} (h : Live g s) (p : Nat) : (colRing K g p).WF := by
+  have h1 := h.hn
+  have h2 := h.hp0
+  have h3 := h.hp1
+  refine ⟨?_, ?_, ?_⟩
+  · show 0 < g.recordsz.toNat
+    omega
+  · show g.pointer.toNat < g.recordsz.toNat
+    omega
+  · show ((rowsOf g).map _).length = g.recordsz.toNat
+    rw [rowsOf_live h, List.length_map, h.hl]
 
 /-- a read of column `p` is entry `p` of the row read -/
 theorem col_read (K : Ops α) {g : SelT α} {s : Stack α} (h : Live g s) (p : Nat) (o : Int) :
@@ -66,12 +134,17 @@ theorem col_read (K : Ops α) {g : SelT α} {s : Stack α} (h : Live g s) (p : N
   have hk : unwind g.pointer.toNat o g.recordsz.toNat < s.rows.length := by rw [h.hl]; exact hlt
   simp only [Ring.read, colRing, rowsOf_live h, List.getElem?_map, getD_of_lt s.rows _ [] hk, Option.map_some]
 
+/-- the element-wise kernel application, entry `p` -/
 theorem interpObs_get (f : Interp α) (a b c : Obs α) (dt z : α) (p : Nat) (ha : p < a.vals.length)
     (hb : p < b.vals.length) (hc : p < c.vals.length) :
     (interpObs f a b c dt).vals[p]? = some (f (a.vals.getD p z) (b.vals.getD p z) (c.vals.getD p z) dt) := by
   simp only [interpObs, List.getElem?_zipWith, List.zip_eq_zipWith, getD_of_lt _ _ z ha, getD_of_lt _ _ z hb,
     getD_of_lt _ _ z hc]
 
+/-- **`select(time: float, interp, tolerance=tol, offset=offset)`**: the regenerated body, run on a live private state and
+read at position `p`, is `selectScalar` on column `p` — same range test and `ValueError`, same on-grid test with the
+direct read at `offset + round(shift)`, same bracket reads (`ceil` first) and kernel arguments off grid; `interp=None`
+is the module-level default `interp_nearest`. -/
 theorem gen_select_scalar (K : Ops α) (E : Elem α) (nearest : Interp α) (g : SelT α) (s : Stack α) (h : Live g s)
     (p : Nat) (hp : p < prod s.oshape) (t tol : α) (f : Option (Interp α)) (offset : Int) :
     liftSelObs p (RecordTensor_select K E nearest g (.scalar t) f tol offset)
@@ -92,20 +165,24 @@ theorem gen_select_scalar (K : Ops α) (E : Elem α) (nearest : Interp α) (g : 
         (by simp only; rw [row_len h]; exact hp) (by simp [fullc, hp])]
       simp [fullc, hp, sampleAt]
 
-def liftIns (K : Ops α) (p : Nat) : Except Err (SelT α × Unit) → Outcome (Ring α)
+/-- result of the regenerated `insert` → outcome of the model on column `p` (the column of the state reached) -/
+def liftIns (K : Ops α) (p : Nat) : Except Err (SelT α × Unit) → Outcome (Ring.Ring α)
   | .ok (g', _) => .ok (colRing K g' p)
   | .error e => errOut e
 
-theorem map_write {β γ : Type} (f : β → γ) (r : Ring β) (x : β) (o : Int) (b : Bool) :
-    (r.write x o b).data.map f = ((⟨r.n, r.ptr, r.data.map f⟩ : Ring γ).write (f x) o b).data := by
+/-- `write` commutes with a map over the slots (both paths) -/
+theorem map_write {β γ : Type} (f : β → γ) (r : Ring.Ring β) (x : β) (o : Int) (b : Bool) :
+    (r.write x o b).data.map f = ((⟨r.n, r.ptr, r.data.map f⟩ : Ring.Ring γ).write (f x) o b).data := by
   cases b <;> simp [Ring.write, Ring.writeInplace, Ring.writeSplice, List.map_set, List.map_take, List.map_drop]
 
-theorem map_writerangeScalar_false {β γ : Type} (f : β → γ) (r : Ring β) (xs : List β) (o : Int) :
+/-- the out-of-place `writerange` (wrapped and contiguous branch) commutes with a map over the slots -/
+theorem map_writerangeScalar_false {β γ : Type} (f : β → γ) (r : Ring.Ring β) (xs : List β) (o : Int) :
     (r.writerangeScalar xs o false).data.map f
-      = ((⟨r.n, r.ptr, r.data.map f⟩ : Ring γ).writerangeScalar (xs.map f) o false).data := by
+      = ((⟨r.n, r.ptr, r.data.map f⟩ : Ring.Ring γ).writerangeScalar (xs.map f) o false).data := by
   simp only [Ring.writerangeScalar, Bool.false_eq_true, ↓reduceIte, List.length_map]
   split <;> simp [Ring.writerangeWrapped, Ring.writerangeContig, Ring.slice, List.map_take, List.map_drop]
 
+/-- with the identity conversion (float64 storage, as in the check) `.to(dtype)` changes nothing -/
 theorem conv_id (E : Elem α) (hE : ∀ a b v, E.conv a b v = v) (a b : DType) (l : List α) : l.map (E.conv a b) = l := by
   have : E.conv a b = id := by funext v; exact hE a b v
   rw [this, List.map_id]
@@ -119,12 +196,15 @@ theorem setRowE_unwind (E : Elem α) (hE : ∀ a b v, E.conv a b v = v) (s : Sta
   have hlt := unwind_lt ptr.toNat o n.toNat (by omega)
   simp only [Stack.setRowE, hl, pyIndex_nat _ _ hlt, conv_id E hE, ite_self]
 
+/-- `getD` of a present entry -/
 theorem getD_of_get? {β : Type} (l : List β) (i : Nat) (d v : β) (h : l[i]? = some v) : l.getD i d = v := by
   rw [List.getD_eq_getElem?_getD, h]; rfl
 
-theorem write_eta {β : Type} (r : Ring β) (x : β) (o : Int) (b : Bool) :
+/-- `write` touches only the data -/
+theorem write_eta {β : Type} (r : Ring.Ring β) (x : β) (o : Int) (b : Bool) :
     r.write x o b = ⟨r.n, r.ptr, (r.write x o b).data⟩ := by cases b <;> rfl
 
+/-- the element-wise extrapolation kernel application, entry `p` of both results -/
 theorem extrapObs_get (f : Extrap α) (x a b c : Obs α) (dt z : α) (p : Nat) (hx : p < x.vals.length)
     (ha : p < a.vals.length) (hb : p < b.vals.length) (hc : p < c.vals.length) :
     (extrapObs f x a b c dt).1.vals.getD p z = (f (x.vals.getD p z) (a.vals.getD p z) (b.vals.getD p z) (c.vals.getD p z) dt).1
@@ -133,6 +213,7 @@ theorem extrapObs_get (f : Extrap α) (x a b c : Obs α) (dt z : α) (p : Nat) (
   simp only [extrapObs, List.getElem?_map, List.getElem?_zipWith, List.zip_eq_zipWith,
     getD_of_lt _ _ z hx, getD_of_lt _ _ z ha, getD_of_lt _ _ z hb, getD_of_lt _ _ z hc, Option.map_some]
 
+/-- every entry of `fullc(data, v, shape=data.shape[1:])` is `v` -/
 theorem fullc_getD (s : Stack α) (v z : α) (p : Nat) (hp : p < prod s.oshape) : (fullc s v).vals.getD p z = v := by
   apply getD_of_get?
   simp [fullc, hp]
@@ -190,6 +271,12 @@ theorem writerange2 (E : Elem α) (hE : ∀ a b v, E.conv a b v = v) (s : Stack 
       | empty d => rw [hd] at k1; simp at k1
       | uninit d => rw [hd] at k1; simp at k1
 
+/-- **`insert(obs, time: float, extrap, tolerance=tol, offset=offset, inplace=inplace)`**: the regenerated body, run on a
+live private state with a well-shaped observation and read at column `p`, is `insertScalar` on column `p` — range test /
+`ValueError`; on grid `self.write(obs, offset + round(shift), inplace)` (the regenerated `write`); off grid the bracket
+reads, the kernel arguments, then the in-place pair (prev slot first, then next) or
+`self.writerange(stack((prev, next), -1), ceil(offset), forward=True, inplace=False)` (the regenerated `writerange`,
+including its `ValueError` on a one-slot record).  `hE`: dtype conversion is the identity (not part of the model). -/
 theorem gen_insert_scalar (K : Ops α) (E : Elem α) (hE : ∀ a b v, E.conv a b v = v) (nearest : Extrap α)
     (g : SelT α) (s : Stack α) (h : Live g s) (p : Nat) (hp : p < prod s.oshape) (x : Obs α) (hx : x.shape = s.oshape)
     (hxl : x.vals.length = prod s.oshape) (t tol : α) (f : Option (Extrap α)) (offset : Int) (inplace : Bool) :
@@ -245,4 +332,729 @@ theorem gen_insert_scalar (K : Ops α) (E : Elem α) (hE : ∀ a b v, E.conv a b
         simp only []
         rw [setRowE_unwind E hE _ g.pointer g.recordsz h.hn h.hp0 (by simp [h.hl])]
         simp only [liftIns, colRing, rowsOf, Store.ofStack, Ring.writeInplace, List.map_set, e1, e2, h.hdata]
+
+
+/-- a `D × P` matrix given entry by entry (time-major) -/
+def tab {β : Type} (D P : Nat) (f : Nat → Nat → β) : List (List β) :=
+  (List.range D).map fun j => (List.range P).map fun p => f j p
+
+/-- a table has `D` rows -/
+theorem tab_length {β : Type} (D P : Nat) (f : Nat → Nat → β) : (tab D P f).length = D := by simp [tab]
+
+/-- tables are equal when their entries are -/
+theorem tab_congr {β : Type} (D P : Nat) (f f' : Nat → Nat → β) (h : ∀ j p, j < D → p < P → f j p = f' j p) :
+    tab D P f = tab D P f' := by
+  unfold tab
+  apply List.map_congr_left
+  intro j hj
+  apply List.map_congr_left
+  intro p hp
+  exact h j p (List.mem_range.mp hj) (List.mem_range.mp hp)
+
+/-- a rectangular matrix is the table of its entries -/
+theorem tab_of_rect {β : Type} (m : List (List β)) (P : Nat) (z : β) (hm : ∀ r ∈ m, r.length = P) :
+    m = tab m.length P (fun j p => (m.getD j []).getD p z) := by
+  unfold tab
+  apply List.ext_getElem
+  · simp
+  · intro j h1 h2
+    have hl : (m[j]).length = P := hm _ (List.getElem_mem h1)
+    apply List.ext_getElem
+    · simp [hl]
+    · intro p h3 h4
+      simp [List.getD_eq_getElem?_getD, List.getElem?_eq_getElem h1, List.getElem?_eq_getElem h3]
+
+/-- a unary element-wise operation on a table -/
+theorem emap_tab {β γ : Type} (g : β → γ) (D P : Nat) (f : Nat → Nat → β) :
+    emap g (tab D P f) = tab D P (fun j p => g (f j p)) := by
+  simp [emap, tab]
+
+/-- a binary element-wise operation on tables -/
+theorem ezip_tab {β γ δ : Type} (g : β → γ → δ) (D P : Nat) (f : Nat → Nat → β) (f' : Nat → Nat → γ) :
+    ezip g (tab D P f) (tab D P f') = tab D P (fun j p => g (f j p) (f' j p)) := by
+  simp [ezip, tab, List.zipWith_map_left, List.zipWith_map_right, List.zipWith_self]
+
+/-- `torch.where` on tables -/
+theorem ewhere_tab {β : Type} (D P : Nat) (c : Nat → Nat → Bool) (a b : Nat → Nat → β) :
+    ewhere (tab D P c) (tab D P a) (tab D P b) = tab D P (fun j p => if c j p then a j p else b j p) := by
+  simp [ewhere, ezip_tab]
+
+/-- `torch.cat((a, b), 0)` of tables -/
+theorem tab_append {β : Type} (D D' P : Nat) (f f' : Nat → Nat → β) :
+    tab D P f ++ tab D' P f' = tab (D + D') P (fun j p => if j < D then f j p else f' (j - D) p) := by
+  unfold tab
+  apply List.ext_getElem
+  · simp
+  · intro j h1 h2
+    simp at h1 h2
+    by_cases hj : j < D
+    · rw [List.getElem_append_left (by simpa using hj)]
+      simp [hj]
+    · rw [List.getElem_append_right (by simpa using hj)]
+      simp [hj]
+
+/-- the first `D` rows of a table -/
+theorem tab_take {β : Type} (D D' P : Nat) (f : Nat → Nat → β) : (tab (D + D') P f).take D = tab D P f := by
+  unfold tab
+  rw [← List.map_take, List.take_range]
+  simp
+
+/-- the rows of a table after the first `D` -/
+theorem tab_drop {β : Type} (D D' P : Nat) (f : Nat → Nat → β) :
+    (tab (D + D') P f).drop D = tab D' P (fun j p => f (j + D) p) := by
+  unfold tab
+  apply List.ext_getElem
+  · simp
+  · intro j h1 h2
+    simp at h1 h2
+    simp [Nat.add_comm]
+
+/-- positions of a row given entry by entry -/
+theorem zipIdx_map_range {β : Type} (P : Nat) (f : Nat → β) :
+    ((List.range P).map f).zipIdx = (List.range P).map (fun p => (f p, p)) := by
+  apply List.ext_getElem
+  · simp
+  · intro i h1 h2
+    simp at h1 h2 ⊢
+
+/-- `_unwind_tensor_ptr` of the source on a well-formed pointer is the model's `unwind` -/
+theorem unwindT_eq (p o n : Int) (hn : 0 < n) (hp : 0 ≤ p) :
+    InfraF._unwind_tensor_ptr p o n = (unwind p.toNat o n.toNat : Nat) := by
+  have := unwind_eq p o n hn hp
+  simp only [InfraF._unwind_ptr] at this
+  simp only [InfraF._unwind_tensor_ptr, this]
+
+/-- `torch.gather(data, 0, idx)` with in-range indices given entry by entry never fails: entry `(j, p)` of the
+result is `data[idx[j][p]][p]` -/
+theorem gather_tab (s : Stack α) (P : Nat) (hrows : ∀ r ∈ s.rows, r.length = P) (z : α) (D : Nat)
+    (k : Nat → Nat → Nat) (hk : ∀ j p, k j p < s.rows.length) :
+    s.gather0E (tab D P (fun j p => ((k j p : Nat) : Int)))
+      = .ok { s with rows := tab D P (fun j p => (s.rows.getD (k j p) []).getD p z) } := by
+  have hopt : s.gatherOpt (tab D P (fun j p => ((k j p : Nat) : Int)))
+      = (tab D P (fun j p => (s.rows.getD (k j p) []).getD p z)).map (·.map some) := by
+    unfold Stack.gatherOpt tab
+    simp only [List.map_map]
+    apply List.map_congr_left
+    intro j _
+    simp only [Function.comp_apply, zipIdx_map_range, List.map_map]
+    apply List.map_congr_left
+    intro p hp
+    have hp' := List.mem_range.mp hp
+    have hkk := hk j p
+    have hlen : (s.rows.getD (k j p) []).length = P := by
+      apply hrows
+      rw [List.getD_eq_getElem?_getD, List.getElem?_eq_getElem hkk]
+      exact List.getElem_mem hkk
+    simp only [Function.comp_apply, pyIndex_nat _ _ hkk, Option.bind_some, getD_of_lt s.rows _ [] hkk]
+    rw [getD_of_lt _ p z (by omega)]
+  simp only [Stack.gather0E, hopt, allSome_block]
+
+/-- what the reduction of the tensor range test (`amin` / `amax`) needs of the comparison `K.lt`: the laws of a
+linear order's `<` (they hold for `ratOps` and `realOps`: `ratOps_ordLaws`, `realOps_ordLaws`) -/
+structure OrdLaws (K : Ops α) : Prop where
+  trans : ∀ a b c, K.lt a b = true → K.lt b c = true → K.lt a c = true
+  lt_of_lt_of_not_lt : ∀ a b c, K.lt a b = true → K.lt c b = false → K.lt a c = true
+  lt_of_not_lt_of_lt : ∀ a b c, K.lt b a = false → K.lt b c = true → K.lt a c = true
+
+/-- `min a b < c` iff `a < c` or `b < c` -/
+theorem min_lt (K : Ops α) (hK : OrdLaws K) (a b c : α) :
+    K.lt (if K.lt b a then b else a) c = (K.lt a c || K.lt b c) := by
+  by_cases h : K.lt b a = true
+  · simp only [h, ↓reduceIte]
+    cases hac : K.lt a c
+    · simp
+    · simp [hK.trans b a c h hac]
+  · have h' : K.lt b a = false := by simpa using h
+    simp only [h', Bool.false_eq_true, ↓reduceIte]
+    cases hbc : K.lt b c
+    · simp
+    · simp [hK.lt_of_not_lt_of_lt a b c h' hbc]
+
+/-- `c < max a b` iff `c < a` or `c < b` -/
+theorem lt_max (K : Ops α) (hK : OrdLaws K) (a b c : α) :
+    K.lt c (if K.lt a b then b else a) = (K.lt c a || K.lt c b) := by
+  by_cases h : K.lt a b = true
+  · simp only [h, ↓reduceIte]
+    cases hca : K.lt c a
+    · simp
+    · simp [hK.trans c a b hca h]
+  · have h' : K.lt a b = false := by simpa using h
+    simp only [h', Bool.false_eq_true, ↓reduceIte]
+    cases hcb : K.lt c b
+    · simp
+    · simp [hK.lt_of_lt_of_not_lt c b a hcb h']
+
+/-- the running minimum is below `c` iff some element is -/
+theorem foldl_min_lt (K : Ops α) (hK : OrdLaws K) (c : α) : ∀ (xs : List α) (x : α),
+    K.lt (xs.foldl (fun a b => if K.lt b a then b else a) x) c = (K.lt x c || xs.any (fun t => K.lt t c))
+  | [], x => by simp
+  | b :: xs, x => by
+    simp only [List.foldl_cons, List.any_cons]
+    rw [foldl_min_lt K hK c xs, min_lt K hK, Bool.or_assoc]
+
+/-- the running maximum is above `c` iff some element is -/
+theorem foldl_lt_max (K : Ops α) (hK : OrdLaws K) (c : α) : ∀ (xs : List α) (x : α),
+    K.lt c (xs.foldl (fun a b => if K.lt a b then b else a) x) = (K.lt c x || xs.any (fun t => K.lt c t))
+  | [], x => by simp
+  | b :: xs, x => by
+    simp only [List.foldl_cons, List.any_cons]
+    rw [foldl_lt_max K hK c xs, lt_max K hK, Bool.or_assoc]
+
+/-- a rearrangement of four disjuncts -/
+theorem bool_or4 (a b c d : Bool) : ((a || b) || (c || d)) = ((a || c) || (b || d)) := by
+  cases a <;> cases b <;> cases c <;> cases d <;> rfl
+
+/-- `any` of a disjunction -/
+theorem any_or {β : Type} (f g : β → Bool) : ∀ l : List β, l.any (fun t => f t || g t) = (l.any f || l.any g)
+  | [] => rfl
+  | a :: l => by simp only [List.any_cons, any_or f g l, bool_or4]
+
+/-- the tensor range test: `tmin < lo or tmax > hi` holds iff some element is out of `[lo, hi]` -/
+theorem amin_amax_range (K : Ops α) (hK : OrdLaws K) (tt : TTen α) (hne : tt.rows.flatten ≠ []) (lo hi : α) :
+    ∃ m M, tt.amin K = .ok m ∧ tt.amax K = .ok M ∧
+      (K.lt m lo || K.lt hi M) = tt.rows.flatten.any (fun t => K.lt t lo || K.lt hi t) := by
+  unfold TTen.amin TTen.amax
+  cases hfl : tt.rows.flatten with
+  | nil => exact absurd hfl hne
+  | cons x xs =>
+    refine ⟨_, _, rfl, rfl, ?_⟩
+    rw [foldl_min_lt K hK, foldl_lt_max K hK]
+    simp only [List.any_cons, any_or, bool_or4]
+
+/-! ## select, tensor time -/
+
+/-- the statements of the tensor-time branch of `select` after the dimension test (copied from the generated text;
+`select_ten_shape` is proved by `rfl`) -/
+def selectTenTail (K : Ops α) (interp : Interp α) (self : SelT α) (data : Stack α) (ptr recordsz : Int) (dt : α)
+    (squeeze : Bool) (time : TTen α) (tolerance : α) (offset : Int) : Except Err (SelT α × SelOut α) := do
+  let tmin := (← time.amin K)
+  let tmax := (← time.amax K)
+  if ((K.lt tmin (K.neg tolerance)) || (K.lt (K.add (K.mul dt (K.ofInt (recordsz - (1 : Int)))) tolerance) tmax)) then
+    throw Err.ValueError
+  else
+    let shift := (time.emap (fun x_ => K.div x_ dt))
+    let shiftr := (shift.emap (fun x_ => K.ofInt (K.round x_)))
+    let shift := (TTen.ewhere (((TTen.ezip K.sub (shiftr.emap (fun x_ => K.mul dt x_)) time).emap K.abs).bmap (fun x_ => K.le x_ tolerance)) shiftr shift).timeMajor
+    let offset := (emap (fun x_ => K.add (K.ofInt offset) x_) shift)
+    let prev_idx := (emap K.ceil offset)
+    let next_idx := (emap K.floor offset)
+    let stacked_idx := ((prev_idx ++ next_idx).map (·.map (fun o_ => InfraF._unwind_tensor_ptr ptr o_ recordsz)))
+    let pr0_ := (tensorSplitAt (← data.gather0E stacked_idx) (offset.length : Int))
+    let prev_data := pr0_.1
+    let next_data := pr0_.2
+    let res := (interpStack interp prev_data next_data (emap (fun x_ => K.sub dt x_) (emap (fun x_ => K.mul dt x_) (emap (mod1 K) shift))) dt)
+    let res := (TimeLast.mk (Stack.ewhere (ezip (fun a_ b_ => decide (a_ = b_)) prev_idx next_idx) prev_data res))
+    pure (self, SelOut.ten (if squeeze then res.squeezeLast else res))
+
+/-- **shape of the generated `select`, tensor time** (by `rfl` once the storage is known to be initialised): the dimension
+test with the `squeeze` flag / `unsqueeze(-1)` / `ValueError`, then exactly the statements of `selectTenTail`, in this order -/
+theorem select_ten_shape (K : Ops α) (E : Elem α) (nearest : Interp α) (g : SelT α) (s : Stack α)
+    (hdata : g.data = .init s.dt s.oshape s) (tt : TTen α) (f : Option (Interp α)) (tol : α) (offset : Int) :
+    RecordTensor_select K E nearest g (.ten tt) f tol offset = (do
+      let (self, squeeze, time) ← (do
+        if (decide (tt.ndim = (s.ndim - (1 : Int)))) then
+          pure (g, true, tt.unsqueezeLast)
+        else
+          if (decide (tt.ndim = s.ndim)) then
+            pure (g, false, tt)
+          else
+            throw Err.ValueError
+        : Except Err _)
+      selectTenTail K (f.getD nearest) self s g.pointer g.recordsz g.dt squeeze time tol offset) := by
+  unfold RecordTensor_select
+  simp only [hdata]
+  rfl
+
+/-- the `(column, time)` pairs a tensor-time call addresses: entry `(j, p)` of the time-major `ts` goes with column `p` -/
+def selPairs (K : Ops α) (g : SelT α) (ts : List (List α)) : List (Ring.Ring α × α) :=
+  ts.flatMap fun row => row.zipIdx.map fun tp => (colRing K g tp.2, tp.1)
+
+/-- result of the regenerated `select` (tensor time) → outcome of `selectTensorAll`: the selections, time-major -/
+def liftSelTen : Except Err (SelT α × SelOut α) → Outcome (List (Outcome α))
+  | .ok (_, .ten r) => .ok (r.stack.rows.flatten.map .ok)
+  | .ok (_, .obs _) => .noSlot
+  | .error e => errOut e
+
+/-- one entry of the tensor-time `select` -/
+def selElem (K : Ops α) (f : Interp α) (s : Stack α) (ptr n : Nat) (dt tol : α) (offset : Int) (z : α) (p : Nat)
+    (t : α) : α :=
+  let shift := shiftOf K dt tol t
+  let off := K.add (K.ofInt offset) shift
+  let a := (s.rows.getD (unwind ptr (K.ceil off) n) []).getD p z
+  let b := (s.rows.getD (unwind ptr (K.floor off) n) []).getD p z
+  if K.ceil off = K.floor off then a else f a b (sampleAt K dt shift) dt
+
+/-- `selectTensor` on column `p` of a live state, for an in-range time, is `selElem` -/
+theorem selectTensor_elem (K : Ops α) (f : Interp α) {g : SelT α} {s : Stack α} (h : Live g s) (p : Nat)
+    (t tol : α) (offset : Int) (hin : inRange K g.recordsz.toNat g.dt tol t = true) :
+    selectTensor K f (colRing K g p) g.dt tol t offset
+      = .ok (selElem K f s g.pointer.toNat g.recordsz.toNat g.dt tol offset (K.ofInt 0) p t) := by
+  have hn2 : (colRing K g p).n = g.recordsz.toNat := rfl
+  unfold selectTensor
+  simp only [hn2, hin, Bool.not_true, Bool.false_eq_true, ↓reduceIte, col_read K h, withPair, selElem]
+
+/-- the pairs of a table of times -/
+theorem selPairs_tab (K : Ops α) (g : SelT α) (D P : Nat) (T : Nat → Nat → α) :
+    selPairs K g (tab D P T) = (tab D P (fun j p => (colRing K g p, T j p))).flatten := by
+  simp only [selPairs, tab, List.flatMap, List.map_map]
+  congr 1
+  apply List.map_congr_left
+  intro j _
+  simp only [Function.comp_apply, zipIdx_map_range, List.map_map]
+  rfl
+
+/-- a map over the entries of a table -/
+theorem flatten_tab_map {β γ : Type} (F : β → γ) (D P : Nat) (f : Nat → Nat → β) :
+    (tab D P f).flatten.map F = (tab D P (fun j p => F (f j p))).flatten := by
+  simp only [tab, List.map_flatten, List.map_map]
+  congr 1
+  apply List.map_congr_left
+  intro j _
+  simp only [Function.comp_apply, List.map_map]
+  rfl
+
+/-- `any` over the entries of a table -/
+theorem any_flatten_tab {β : Type} (F : β → Bool) (D P : Nat) (f : Nat → Nat → β) :
+    (tab D P f).flatten.any F = (List.range D).any (fun j => (List.range P).any (fun p => F (f j p))) := by
+  simp [tab, List.any_flatten, List.any_map, Function.comp_def]
+
+/-- `emap` unfolded -/
+theorem emap_def {β γ : Type} (f : β → γ) (m : List (List β)) : m.map (fun r => r.map f) = emap f m := rfl
+
+/-- `torch.tensor_split(t, (D,), 0)` of a table with `D + D` rows -/
+theorem tensorSplitAt_tab (d : DType) (sh : List Nat) (D P : Nat) (F : Nat → Nat → α) :
+    tensorSplitAt ⟨d, sh, tab (D + D) P F⟩ (D : Int)
+      = (⟨d, sh, tab D P F⟩, ⟨d, sh, tab D P (fun j p => F (j + D) p)⟩) := by
+  simp only [tensorSplitAt, Stack.slice, RingProg.pyBound_nat, tab_length, Nat.min_eq_left (Nat.le_add_right D D),
+    List.drop_zero, tab_take, List.take_of_length_le (Nat.le_of_eq (tab_length _ _ _)), tab_drop]
+
+/-- the tensor-time branch after the dimension test is `selectTensorAll`: all-or-nothing range test through `amin` / `amax`,
+then entry `(j, p)` is `selectTensor` on column `p` at `time[j][p]` -/
+theorem selectTenTail_eq (K : Ops α) (hK : OrdLaws K) (f : Interp α) (g : SelT α) (s : Stack α) (h : Live g s)
+    (sq : Bool) (tt : TTen α) (htt : ∀ r ∈ tt.rows, r.length = prod s.oshape) (hne : tt.rows.flatten ≠ [])
+    (tol : α) (offset : Int) :
+    liftSelTen (selectTenTail K f g s g.pointer g.recordsz g.dt sq tt tol offset)
+      = selectTensorAll K f (selPairs K g tt.rows) g.dt tol offset := by
+  have en : ((g.recordsz.toNat : Nat) : Int) = g.recordsz := Int.toNat_of_nonneg (by have := h.hn; omega)
+  obtain ⟨m, M, hm, hM, hrange⟩ := amin_amax_range K hK tt hne (K.neg tol)
+    (K.add (K.mul g.dt (K.ofInt (g.recordsz - 1))) tol)
+  have hT := tab_of_rect tt.rows (prod s.oshape) (K.ofInt 0) htt
+  generalize hTd : (fun j p => (tt.rows.getD j []).getD p (K.ofInt 0)) = T at hT
+  generalize tt.rows.length = D at hT
+  unfold selectTenTail selectTensorAll
+  simp only [hm, hM, bind, Except.bind, pure, Except.pure, hrange]
+  have hany : (selPairs K g tt.rows).any (fun ct => !inRange K ct.1.n g.dt tol ct.2)
+      = tt.rows.flatten.any (fun t => K.lt t (K.neg tol) || K.lt (K.add (K.mul g.dt (K.ofInt (g.recordsz - 1))) tol) t) := by
+    rw [hT, selPairs_tab, any_flatten_tab, any_flatten_tab]
+    simp only [inRange, colRing, en, Bool.not_not]
+  rw [hany]
+  by_cases hr : tt.rows.flatten.any (fun t => K.lt t (K.neg tol) || K.lt (K.add (K.mul g.dt (K.ofInt (g.recordsz - 1))) tol) t) = true
+  · simp [hr, liftSelTen, errOut, throw, throwThe, MonadExceptOf.throw]
+  · simp only [hr, Bool.false_eq_true, ↓reduceIte]
+    simp only [TTen.emap, TTen.ezip, TTen.ewhere, TTen.bmap, TTen.timeMajor, hT, emap_tab, ezip_tab, ewhere_tab, tab_length,
+      emap_def, tab_append, unwindT_eq _ _ _ h.hn h.hp0]
+    have hsh : ∀ t, (if K.le (K.abs (K.sub (K.mul g.dt (K.ofInt (K.round (K.div t g.dt)))) t)) tol = true then
+        K.ofInt (K.round (K.div t g.dt)) else K.div t g.dt) = shiftOf K g.dt tol t := fun t => rfl
+    simp only [hsh]
+    have hpos : 0 < g.recordsz.toNat := by have := h.hn; omega
+    rw [gather_tab s _ h.hrows (K.ofInt 0) (D + D) _ (fun j p => by rw [h.hl]; exact unwind_lt _ _ _ hpos)]
+    simp only [tensorSplitAt_tab, interpStack, Stack.ewhere, ezip_tab, ewhere_tab,
+      TimeLast.squeezeLast, ite_self, liftSelTen]
+    rw [selPairs_tab, flatten_tab_map, flatten_tab_map]
+    congr 2
+    apply tab_congr
+    intro j p hj hp
+    have hin : inRange K g.recordsz.toNat g.dt tol (T j p) = true := by
+      rw [hT, any_flatten_tab] at hr
+      simp only [List.any_eq_true, List.mem_range, not_exists, not_and, Bool.not_eq_true] at hr
+      have := hr j hj p hp
+      simp only [inRange, en, this, Bool.not_false]
+    rw [selectTensor_elem K f h p _ tol offset hin]
+    have e1 : ¬ (j + D < D) := by omega
+    have e2 : j + D - D = j := by omega
+    simp only [selElem, hj, e1, e2, ↓reduceIte, sampleAt, decide_eq_true_eq]
+
+/-- **`select(time: Tensor, interp, tolerance=tol, offset=offset)`**: the regenerated body, run on a live private state with a
+time tensor of `D` selections per position (`ndim = data.ndim`) or one (`ndim = data.ndim - 1`, squeezed), is
+`selectTensorAll` over the pairs (column `p`, `time[j][p]`) — `ValueError` iff ANY element fails the range test
+(`amin` / `amax`; `hK`: `K.lt` is a linear order's `<`), otherwise every entry is `selectTensor`: snapped shift, `ceil` /
+`floor` bracket, `gather`, kernel on (prev, next, `dt - dt * (shift % 1)`, `dt`), overwritten by the gathered prev value where
+the two indices coincide.  `hne`: torch's `amin` raises on a tensor without elements, where the model's list function
+returns the empty list. -/
+theorem gen_select_tensor (K : Ops α) (hK : OrdLaws K) (E : Elem α) (nearest : Interp α) (g : SelT α) (s : Stack α)
+    (h : Live g s) (tt : TTen α)
+    (hnd : tt.shape.length = s.oshape.length ∨ tt.shape.length = s.oshape.length + 1)
+    (htt : ∀ r ∈ tt.rows, r.length = prod s.oshape) (hne : tt.rows.flatten ≠ [])
+    (tol : α) (f : Option (Interp α)) (offset : Int) :
+    liftSelTen (RecordTensor_select K E nearest g (.ten tt) f tol offset)
+      = selectTensorAll K (f.getD nearest) (selPairs K g tt.rows) g.dt tol offset := by
+  rw [select_ten_shape K E nearest g s h.hdata]
+  rcases hnd with hnd | hnd
+  · have e1 : tt.ndim = s.ndim - 1 := by simp only [TTen.ndim, Stack.ndim, hnd]; omega
+    simp only [e1, decide_true, ↓reduceIte, bind, Except.bind, pure, Except.pure]
+    exact selectTenTail_eq K hK _ g s h true tt.unsqueezeLast htt hne tol offset
+  · have e1 : ¬ tt.ndim = s.ndim - 1 := by simp only [TTen.ndim, Stack.ndim, hnd]; omega
+    have e2 : tt.ndim = s.ndim := by simp only [TTen.ndim, Stack.ndim, hnd]; omega
+    have e3 : ¬ (s.ndim = s.ndim - 1) := by omega
+    simp only [e1, e2, e3, decide_true, decide_false, Bool.false_eq_true, ↓reduceIte, bind, Except.bind, pure, Except.pure]
+    exact selectTenTail_eq K hK _ g s h false tt htt hne tol offset
+
+/-- a time tensor with any other number of dimensions raises ValueError (the model has no such input) -/
+theorem gen_select_tensor_ndim (K : Ops α) (E : Elem α) (nearest : Interp α) (g : SelT α) (s : Stack α)
+    (h : Live g s) (tt : TTen α)
+    (hnd : ¬ (tt.shape.length = s.oshape.length ∨ tt.shape.length = s.oshape.length + 1))
+    (tol : α) (f : Option (Interp α)) (offset : Int) :
+    RecordTensor_select K E nearest g (.ten tt) f tol offset = .error .ValueError := by
+  rw [select_ten_shape K E nearest g s h.hdata]
+  have e1 : ¬ tt.ndim = s.ndim - 1 := by simp only [TTen.ndim, Stack.ndim]; omega
+  have e2 : ¬ tt.ndim = s.ndim := by simp only [TTen.ndim, Stack.ndim]; omega
+  simp only [e1, e2, decide_false, Bool.false_eq_true, ↓reduceIte, bind, Except.bind]
+  rfl
+
+/-! ## insert, tensor time: `scatter` -/
+
+/-- the writes of one time slice of a `scatter`, position by position -/
+def scatRow (P : Nat) (kj : Nat → Nat) (vj : Nat → α) (d : List (List α)) : List (List α) :=
+  (List.range P).foldl (fun d p => d.modify (kj p) (·.set p (vj p))) d
+
+/-- the writes of a `scatter`, time slice by time slice -/
+def scatAll (D P : Nat) (k : Nat → Nat → Nat) (V : Nat → Nat → α) (d : List (List α)) : List (List α) :=
+  (List.range D).foldl (fun d j => scatRow P (k j) (V j) d) d
+
+/-- a monadic fold over `range n` whose steps all succeed under an invariant is the pure fold -/
+theorem foldlM_range_some {β : Type} (I : β → Prop) (F : β → Nat → Option β) (G : β → Nat → β)
+    (hI : ∀ b j, I b → I (G b j)) (hF : ∀ b j, I b → F b j = some (G b j)) :
+    ∀ (n : Nat) (b : β), I b → (List.range n).foldlM F b = some ((List.range n).foldl G b) ∧ I ((List.range n).foldl G b)
+  | 0, b, hb => by simp [hb, pure]
+  | n + 1, b, hb => by
+    obtain ⟨h1, h2⟩ := foldlM_range_some I F G hI hF n b hb
+    rw [List.range_succ, List.foldlM_append, List.foldl_append, h1]
+    refine ⟨?_, hI _ n h2⟩
+    simp only [bind, Option.bind, List.foldlM_cons, List.foldlM_nil, List.foldl_cons, List.foldl_nil, hF _ n h2, pure]
+
+/-- the writes of one time slice with in-range indices all succeed and keep the number of slices -/
+theorem scatRow_ok (P : Nat) (kj : Nat → Nat) (vj : Nat → α) (L : Nat) (hk : ∀ p, kj p < L) (d : List (List α))
+    (hd : d.length = L) :
+    (List.range P).foldlM (fun (d : List (List α)) p => scatter1 d ((kj p : Nat) : Int) p (vj p)) d
+        = some (scatRow P kj vj d)
+      ∧ (scatRow P kj vj d).length = L := by
+  exact foldlM_range_some (fun d : List (List α) => d.length = L) _ (fun d p => d.modify (kj p) (·.set p (vj p)))
+    (fun b j hb => by simp [hb])
+    (fun b j hb => by simp [scatter1, pyIndex_nat _ _ (hb ▸ hk j)]) P d hd
+
+/-- `scatter` with in-range indices given entry by entry never fails -/
+theorem scatter_tab (s : Stack α) (dd : DType) (sh : List Nat) (D P : Nat) (k : Nat → Nat → Nat)
+    (V : Nat → Nat → α) (hk : ∀ j p, k j p < s.rows.length) :
+    s.scatter0E (tab D P (fun j p => ((k j p : Nat) : Int))) ⟨dd, sh, tab D P V⟩
+      = .ok { s with rows := scatAll D P k V s.rows } := by
+  unfold Stack.scatter0E
+  simp only [tab, List.zip_map', List.foldlM_map, zipIdx_map_range]
+  have := foldlM_range_some (fun d : List (List α) => d.length = s.rows.length)
+    (fun (d : List (List α)) j => (List.range P).foldlM
+        (fun (d : List (List α)) p => scatter1 d ((k j p : Nat) : Int) p (V j p)) d)
+    (fun d j => scatRow P (k j) (V j) d)
+    (fun b j hb => (scatRow_ok P (k j) (V j) _ (hk j) b hb).2)
+    (fun b j hb => (scatRow_ok P (k j) (V j) _ (hk j) b hb).1) D s.rows rfl
+  rw [this.1]
+  rfl
+
+/-- one `scatter` write keeps every slice's length -/
+theorem rect_modify (P : Nat) (d : List (List α)) (hd : ∀ r ∈ d, r.length = P) (k q : Nat) (v : α) :
+    ∀ r ∈ d.modify k (·.set q v), r.length = P := by
+  intro r hr
+  obtain ⟨i, hi⟩ := List.getElem?_of_mem hr
+  rw [List.getElem?_modify] at hi
+  cases hdi : d[i]? with
+  | none => rw [hdi] at hi; simp at hi
+  | some a =>
+    rw [hdi] at hi
+    have ha : a.length = P := hd a (List.mem_of_getElem? hdi)
+    simp only [Option.map_eq_map, Option.map_some, Option.some.injEq] at hi
+    rw [← hi]
+    split <;> simp [ha]
+
+/-- a `scatter` write at position `q` leaves column `p ≠ q` alone -/
+theorem col_modify_ne (d : List (List α)) (k p q : Nat) (v z : α) (hpq : p ≠ q) :
+    (d.modify k (·.set q v)).map (·.getD p z) = d.map (·.getD p z) := by
+  apply List.ext_getElem?
+  intro i
+  simp only [List.getElem?_map, List.getElem?_modify]
+  cases d[i]? with
+  | none => rfl
+  | some a =>
+    simp only [Option.map_eq_map, Option.map_some]
+    split
+    · simp [List.getD_eq_getElem?_getD, List.getElem?_set, Ne.symm hpq]
+    · rfl
+
+/-- a `scatter` write at position `q` is a `set` on column `q` -/
+theorem col_modify_eq (P : Nat) (d : List (List α)) (hd : ∀ r ∈ d, r.length = P) (k q : Nat) (hq : q < P) (v z : α) :
+    (d.modify k (·.set q v)).map (·.getD q z) = (d.map (·.getD q z)).set k v := by
+  apply List.ext_getElem?
+  intro i
+  simp only [List.getElem?_map, List.getElem?_modify, List.getElem?_set, List.length_map]
+  cases hdi : d[i]? with
+  | none =>
+    have : ¬ i < d.length := by
+      intro hlt
+      rw [List.getElem?_eq_getElem hlt] at hdi
+      cases hdi
+    by_cases hki : k = i
+    · subst hki; simp [this]
+    · simp [hki]
+  | some a =>
+    have ha : a.length = P := hd a (List.mem_of_getElem? hdi)
+    have hlt : i < d.length := by
+      apply Classical.byContradiction
+      intro hlt
+      rw [List.getElem?_eq_none (by omega)] at hdi
+      cases hdi
+    by_cases hki : k = i
+    · subst hki
+      simp [hlt, List.getD_eq_getElem?_getD, List.getElem?_set, ha, hq]
+    · simp [hki]
+
+/-- column `p` after the writes of one time slice: one `set` -/
+theorem col_scatRow (P : Nat) (kj : Nat → Nat) (vj : Nat → α) (z : α) (p : Nat) (d : List (List α))
+    (hd : ∀ r ∈ d, r.length = P) :
+    ∀ n, n ≤ P → (∀ r ∈ scatRow n kj vj d, r.length = P) ∧
+      (scatRow n kj vj d).map (·.getD p z)
+        = if p < n then (d.map (·.getD p z)).set (kj p) (vj p) else d.map (·.getD p z)
+  | 0, _ => by simp only [scatRow, List.range_zero, List.foldl_nil]; exact ⟨hd, by simp⟩
+  | n + 1, hn => by
+    obtain ⟨h1, h2⟩ := col_scatRow P kj vj z p d hd n (by omega)
+    have e : scatRow (n + 1) kj vj d = (scatRow n kj vj d).modify (kj n) (·.set n (vj n)) := by
+      simp [scatRow, List.range_succ, List.foldl_append]
+    rw [e]
+    refine ⟨rect_modify P _ h1 _ _ _, ?_⟩
+    by_cases hpn : p = n
+    · subst hpn
+      rw [col_modify_eq P _ h1 _ _ (by omega), h2]
+      simp
+    · rw [col_modify_ne _ _ _ _ _ _ hpn, h2]
+      have : p < n + 1 ↔ p < n := by omega
+      simp [this]
+
+/-- the `(column, obs, time)` triples a tensor-time `insert` addresses: position `p` goes with column `p` -/
+def insCols (K : Ops α) (g : SelT α) (x : Obs α) (trow : List α) (P : Nat) : List (Ring.Ring α × α × α) :=
+  (List.range P).map fun p => (colRing K g p, x.vals.getD p (K.ofInt 0), trow.getD p (K.ofInt 0))
+
+/-- result of the regenerated `insert` (tensor time) → outcome of `insertTensorAll`: the columns of the state reached -/
+def liftInsTen (K : Ops α) (P : Nat) : Except Err (SelT α × Unit) → Outcome (List (Outcome (Ring.Ring α)))
+  | .ok (g', _) => .ok ((List.range P).map fun p => .ok (colRing K g' p))
+  | .error e => errOut e
+
+/-- `torch.tensor_split(t, 2, 0)` of a table with two rows -/
+theorem tensorSplit2_tab (d : DType) (sh : List Nat) (P : Nat) (F : Nat → Nat → α) :
+    tensorSplit2 ⟨d, sh, tab (1 + 1) P F⟩ = (⟨d, sh, tab 1 P F⟩, ⟨d, sh, tab 1 P (fun j p => F (j + 1) p)⟩) := by
+  have := tensorSplitAt_tab d sh 1 P F
+  simp only [tensorSplit2, tab_length]
+  exact this
+
+/-- with the identity conversion `torch.cat` leaves the rows of its parts alone -/
+theorem rowsAs_id (E : Elem α) (hE : ∀ a b v, E.conv a b v = v) (q : Stack α) (d : DType) : q.rowsAs E d = q.rows := by
+  unfold Stack.rowsAs Stack.to
+  split
+  · rfl
+  · have : E.conv q.dt d = id := by funext v; exact hE _ _ v
+    simp [this]
+
+/-- `torch.cat((a, b), 0).to(dtype=d)` with the identity conversion -/
+theorem cat2_to (E : Elem α) (hE : ∀ a b v, E.conv a b v = v) (a b : Stack α) (d : DType) :
+    (cat E [a, b]).to E d = ⟨d, a.oshape, a.rows ++ b.rows⟩ := by
+  have hid : ∀ d1 d2, E.conv d1 d2 = id := by intro d1 d2; funext v; exact hE _ _ v
+  simp [cat, Stack.to, rowsAs_id E hE, hid]
+
+/-- a `scatter` of two time slices: the first, then the second -/
+theorem scatAll_two (P : Nat) (k : Nat → Nat → Nat) (V : Nat → Nat → α) (d : List (List α)) :
+    scatAll (1 + 1) P k V d = scatRow P (k 1) (V 1) (scatRow P (k 0) (V 0) d) := by
+  simp [scatAll, List.range_succ]
+
+/-- **`insert(obs, time: Tensor, extrap, tolerance=tol, offset=offset, inplace=inplace)`**: the regenerated body, run on a live
+private state with a well-shaped observation and an observation-shaped time tensor, is `insertTensorAll` over the triples
+(column `p`, `obs[p]`, `time[p]`) — `ValueError` iff ANY element fails the range test, otherwise column `p` becomes
+`insertTensor`'s: extrapolate with the snapped shift, replace both results by `obs` where `ceil = floor`, write the prev
+slot, then the next slot.  Both the `scatter_` (in place) and the `scatter` (out of place) branch. -/
+theorem gen_insert_tensor (K : Ops α) (hK : OrdLaws K) (E : Elem α) (hE : ∀ a b v, E.conv a b v = v)
+    (nearest : Extrap α) (g : SelT α) (s : Stack α) (h : Live g s) (x : Obs α) (hx : x.shape = s.oshape)
+    (hxl : x.vals.length = prod s.oshape) (tt : TTen α) (hts : tt.shape = s.oshape) (trow : List α)
+    (htr : tt.rows = [trow]) (htl : trow.length = prod s.oshape) (hP : 0 < prod s.oshape)
+    (tol : α) (f : Option (Extrap α)) (offset : Int) (inplace : Bool) :
+    liftInsTen K (prod s.oshape) (RecordTensor_insert K E nearest g x (.ten tt) f tol offset inplace)
+      = insertTensorAll K (f.getD nearest) (insCols K g x trow (prod s.oshape)) g.dt tol offset := by
+  have en : ((g.recordsz.toNat : Nat) : Int) = g.recordsz := Int.toNat_of_nonneg (by have := h.hn; omega)
+  have hne : tt.rows.flatten ≠ [] := by
+    rw [htr]; simp only [List.flatten_cons, List.flatten_nil, List.append_nil]
+    intro e; rw [e] at htl; simp at htl; omega
+  obtain ⟨m, M, hm, hM, hrange⟩ := amin_amax_range K hK tt hne (K.neg tol)
+    (K.add (K.mul g.dt (K.ofInt (g.recordsz - 1))) tol)
+  have hT : tt.rows = tab 1 (prod s.oshape) (fun _ p => trow.getD p (K.ofInt 0)) := by
+    have := tab_of_rect tt.rows (prod s.oshape) (K.ofInt 0) (by rw [htr]; simpa using htl)
+    rw [this, htr]
+    apply tab_congr
+    intro j p hj hp
+    have : j = 0 := by simp at hj; omega
+    subst this
+    rfl
+  have hX : x.unsqueeze0.rows = tab 1 (prod s.oshape) (fun _ p => x.vals.getD p (K.ofInt 0)) := by
+    have := tab_of_rect [x.vals] (prod s.oshape) (K.ofInt 0) (by simpa using hxl)
+    simp only [Obs.unsqueeze0]
+    rw [this]
+    apply tab_congr
+    intro j p hj hp
+    have : j = 0 := by simp at hj; omega
+    subst this
+    rfl
+  unfold RecordTensor_insert insertTensorAll
+  simp only [h.hdata, hx, hts, hm, hM, bind, Except.bind, pure, Except.pure, hrange, ne_eq, not_true_eq_false,
+    decide_false, Bool.false_eq_true, ↓reduceIte]
+  have hany : (insCols K g x trow (prod s.oshape)).any (fun c => !inRange K c.1.n g.dt tol c.2.2)
+      = tt.rows.flatten.any (fun t => K.lt t (K.neg tol) || K.lt (K.add (K.mul g.dt (K.ofInt (g.recordsz - 1))) tol) t) := by
+    rw [hT, any_flatten_tab]
+    simp only [insCols, List.any_map, inRange, colRing, en, Bool.not_not, List.range_one, List.any_cons, List.any_nil,
+      Bool.or_false, Function.comp_def]
+  rw [hany]
+  by_cases hr : tt.rows.flatten.any (fun t => K.lt t (K.neg tol) || K.lt (K.add (K.mul g.dt (K.ofInt (g.recordsz - 1))) tol) t) = true
+  · simp [hr, liftInsTen, errOut, throw, throwThe, MonadExceptOf.throw]
+  · simp only [hr, Bool.false_eq_true, ↓reduceIte]
+    simp only [TTen.emap, TTen.ezip, TTen.ewhere, TTen.bmap, TTen.unsqueeze0, hT, emap_tab, ezip_tab, ewhere_tab, tab_length,
+      emap_def, tab_append, unwindT_eq _ _ _ h.hn h.hp0]
+    have hsh : ∀ t, (if K.le (K.abs (K.sub (K.mul g.dt (K.ofInt (K.round (K.div t g.dt)))) t)) tol = true then
+        K.ofInt (K.round (K.div t g.dt)) else K.div t g.dt) = shiftOf K g.dt tol t := fun t => rfl
+    simp only [hsh]
+    have hpos : 0 < g.recordsz.toNat := by have := h.hn; omega
+    rw [gather_tab s _ h.hrows (K.ofInt 0) (1 + 1) _ (fun j p => by rw [h.hl]; exact unwind_lt _ _ _ hpos)]
+    simp only [tensorSplit2_tab, extrapStack, Stack.ewhere, hX, ezip_tab, emap_tab, ewhere_tab, cat2_to E hE, tab_append]
+    rw [scatter_tab s _ _ (1 + 1) _ _ _ (fun j p => by rw [h.hl]; exact unwind_lt _ _ _ hpos)]
+    simp only [ite_self, liftInsTen, insCols, List.map_map]
+    congr 1
+    apply List.map_congr_left
+    intro p hp
+    have hp' := List.mem_range.mp hp
+    have hin : inRange K g.recordsz.toNat g.dt tol (trow.getD p (K.ofInt 0)) = true := by
+      rw [hT, any_flatten_tab] at hr
+      simp only [List.any_eq_true, List.mem_range, not_exists, not_and, Bool.not_eq_true] at hr
+      have := hr 0 (by omega) p hp'
+      simp only [inRange, en, this, Bool.not_false]
+    have hn2 : (colRing K g p).n = g.recordsz.toNat := rfl
+    simp only [Function.comp_apply, insertTensor, hn2, hin, Bool.not_true, Bool.false_eq_true, ↓reduceIte, col_read K h,
+      withPair]
+    rw [scatAll_two]
+    obtain ⟨r1, c1⟩ := col_scatRow (prod s.oshape) _ _ (K.ofInt 0) p s.rows h.hrows (prod s.oshape) (Nat.le_refl _)
+    obtain ⟨r2, c2⟩ := col_scatRow (prod s.oshape) _ _ (K.ofInt 0) p _ r1 (prod s.oshape) (Nat.le_refl _)
+    simp only [colRing, rowsOf, Store.ofStack, h.hdata, Ring.writeInplace]
+    rw [c2, c1]
+    simp [hp', sampleAt]
+
+/-! ## Branches the model does not have (it starts from a live ring and a well-shaped observation) -/
+
+/-- `select` on ignored storage (`None`, `empty(0)`, uninitialised) raises RuntimeError, whatever the arguments -/
+theorem gen_select_ignored (K : Ops α) (E : Elem α) (nearest : Interp α) (g : SelT α)
+    (hg : ∀ d sh s, g.data ≠ .init d sh s) (time : TimeArg α) (f : Option (Interp α)) (tol : α) (offset : Int) :
+    RecordTensor_select K E nearest g time f tol offset = .error .RuntimeError := by
+  unfold RecordTensor_select
+  cases hd : g.data with
+  | init d sh s => exact absurd hd (hg d sh s)
+  | none => rfl
+  | empty d => rfl
+  | uninit d => rfl
+
+/-- `insert` on ignored storage raises RuntimeError, whatever the arguments -/
+theorem gen_insert_ignored (K : Ops α) (E : Elem α) (nearest : Extrap α) (g : SelT α)
+    (hg : ∀ d sh s, g.data ≠ .init d sh s) (x : Obs α) (time : TimeArg α) (f : Option (Extrap α)) (tol : α)
+    (offset : Int) (inplace : Bool) :
+    RecordTensor_insert K E nearest g x time f tol offset inplace = .error .RuntimeError := by
+  unfold RecordTensor_insert
+  cases hd : g.data with
+  | init d sh s => exact absurd hd (hg d sh s)
+  | none => rfl
+  | empty d => rfl
+  | uninit d => rfl
+
+/-- `insert` of an observation whose shape is not the stored observations' raises ValueError before anything else -/
+theorem gen_insert_obs_shape (K : Ops α) (E : Elem α) (nearest : Extrap α) (g : SelT α) (s : Stack α) (h : Live g s)
+    (x : Obs α) (hx : x.shape ≠ s.oshape) (time : TimeArg α) (f : Option (Extrap α)) (tol : α) (offset : Int)
+    (inplace : Bool) :
+    RecordTensor_insert K E nearest g x time f tol offset inplace = .error .ValueError := by
+  unfold RecordTensor_insert
+  simp only [h.hdata, ne_eq, hx, not_false_eq_true, decide_true, ↓reduceIte]
+  rfl
+
+/-- tensor-time `insert` with a `time` tensor whose shape is not the stored observations' raises ValueError -/
+theorem gen_insert_time_shape (K : Ops α) (E : Elem α) (nearest : Extrap α) (g : SelT α) (s : Stack α) (h : Live g s)
+    (x : Obs α) (hx : x.shape = s.oshape) (tt : TTen α) (hts : tt.shape ≠ s.oshape) (f : Option (Extrap α)) (tol : α)
+    (offset : Int) (inplace : Bool) :
+    RecordTensor_insert K E nearest g x (.ten tt) f tol offset inplace = .error .ValueError := by
+  unfold RecordTensor_insert
+  simp only [h.hdata, ne_eq, hx, hts, not_true_eq_false, not_false_eq_true, decide_true, decide_false,
+    Bool.false_eq_true, ↓reduceIte]
+  rfl
+
+/-- on a live ring the model's scalar `select` never reports `noSlot`; so (by `gen_select_scalar`) the program
+returns an observation or raises ValueError, nothing else -/
+theorem gen_select_scalar_total (K : Ops α) (E : Elem α) (nearest : Interp α) (g : SelT α) (s : Stack α)
+    (h : Live g s) (t tol : α) (f : Option (Interp α)) (offset : Int) :
+    (∃ x, RecordTensor_select K E nearest g (.scalar t) f tol offset = .ok (g, .obs x)) ∨
+      RecordTensor_select K E nearest g (.scalar t) f tol offset = .error .ValueError := by
+  unfold RecordTensor_select
+  simp only [h.hdata, bind, Except.bind, pure, Except.pure, rowE_unwind s g.pointer g.recordsz h.hn h.hp0 h.hl]
+  split
+  · exact Or.inr rfl
+  · split
+    · exact Or.inl ⟨_, rfl⟩
+    · exact Or.inl ⟨_, rfl⟩
+
+/-! ## The order laws hold for the instances the model is run / reasoned at -/
+
+/-- exact rationals (the driver's exact mode) -/
+theorem ratOps_ordLaws : OrdLaws ratOps where
+  trans := by intro a b c; simp only [ratOps, decide_eq_true_eq]; grind
+  lt_of_lt_of_not_lt := by intro a b c; simp only [ratOps, decide_eq_true_eq, decide_eq_false_iff_not]; grind
+  lt_of_not_lt_of_lt := by intro a b c; simp only [ratOps, decide_eq_true_eq, decide_eq_false_iff_not]; grind
+
+/-- the reals (the instance the theorems of `Props/C02.lean` are about) -/
+theorem realOps_ordLaws : OrdLaws realOps where
+  trans := by intro a b c; simp only [realOps, decide_eq_true_eq]; exact lt_trans
+  lt_of_lt_of_not_lt := by
+    intro a b c; simp only [realOps, decide_eq_true_eq, decide_eq_false_iff_not, not_lt]; exact lt_of_lt_of_le
+  lt_of_not_lt_of_lt := by
+    intro a b c; simp only [realOps, decide_eq_true_eq, decide_eq_false_iff_not, not_lt]; exact lt_of_le_of_lt
+
+/-! ## Non-vacuity: the generated programs run on a concrete well-formed state -/
+
+/-- identity conversion, zero `0` -/
+def exE : Elem Rat := ⟨fun _ _ v => v, 0⟩
+
+/-- 4 slots of 2 positions, pointer 1, `dt = 1/2` -/
+def exS : Stack Rat := ⟨false, [2], [[1, 10], [2, 20], [3, 30], [4, 40]]⟩
+/-- its private state: pointer 1, 4 slots, `dt = 1/2` -/
+def exG : SelT Rat := ⟨.init false [2] exS, 1, 4, 1/2⟩
+
+example : Live exG exS := ⟨rfl, by decide, rfl, by decide, by decide, by decide⟩
+-- on grid: the stored observation one step back; off grid: linear interpolation between the brackets
+example : liftSelObs 1 (RecordTensor_select ratOps exE Q.interp_linear exG (.scalar (1/2)) none (1/1000) 1) = .ok 40 := by
+  decide +kernel
+example : liftSelObs 1 (RecordTensor_select ratOps exE Q.interp_linear exG (.scalar (3/4)) none (1/1000) 1) = .ok 35 := by
+  decide +kernel
+example : selectScalar ratOps Q.interp_linear (colRing ratOps exG 1) (1/2) (1/1000) (3/4) 1 = .ok 35 := by decide +kernel
+-- out of range: ValueError
+example : liftSelObs 1 (RecordTensor_select ratOps exE Q.interp_linear exG (.scalar (7/4)) none (1/1000) 1) = .valueError := by
+  decide +kernel
+-- tensor time: three selections per position, squeezed form, an out-of-range element
+example : liftSelTen (RecordTensor_select ratOps exE Q.interp_linear exG
+    (.ten ⟨[2, 3], [[1/2, 3/4], [0, 1], [5/4, 3/2]]⟩) none (1/1000) 1)
+      = .ok [.ok 4, .ok 35, .ok 1, .ok 30, .ok (5/2), .ok 20] := by decide +kernel
+example : liftSelTen (RecordTensor_select ratOps exE Q.interp_linear exG (.ten ⟨[2], [[1/2, 7/4]]⟩) none (1/1000) 1)
+      = .valueError := by decide +kernel
+-- insert: on grid (one slot), off grid out of place (`writerange`), off grid in place, tensor time (`scatter`)
+example : liftIns ratOps 0 (RecordTensor_insert ratOps exE Q.extrap_neighbors exG ⟨false, [2], [7, 70]⟩ (.scalar (1/2)) none
+    (1/1000) 0 false) = .ok ⟨4, 1, [7, 2, 3, 4]⟩ := by decide +kernel
+example : liftIns ratOps 0 (RecordTensor_insert ratOps exE Q.extrap_neighbors exG ⟨false, [2], [7, 70]⟩ (.scalar (3/4)) none
+    (1/1000) 0 false) = .ok ⟨4, 1, [7, 2, 3, 7]⟩ := by decide +kernel
+example : liftIns ratOps 1 (RecordTensor_insert ratOps exE Q.extrap_neighbors exG ⟨false, [2], [7, 70]⟩ (.scalar (3/4)) none
+    (1/1000) 0 true) = .ok ⟨4, 1, [70, 20, 30, 70]⟩ := by decide +kernel
+example : liftInsTen ratOps 2 (RecordTensor_insert ratOps exE Q.extrap_neighbors exG ⟨false, [2], [7, 70]⟩
+    (.ten ⟨[2], [[3/4, 1]]⟩) none (1/1000) 0 true) = .ok [.ok ⟨4, 1, [7, 2, 3, 7]⟩, .ok ⟨4, 1, [10, 20, 30, 70]⟩] := by
+  decide +kernel
+
 end InfernoVerif.Gen.SelectProg
